@@ -756,6 +756,9 @@ def run(ctx):
     r5 = rep.rule('C17.5-rewrite-order', 'R-ORDER', 'rwgeneric: route, extra dot, extra at, no-at (default host), plus, no-dot (default domain), in that order')
     rg = prog.fn('rwgeneric', 'qmail-inject.c')
     STEPS = ['rwroute', 'rwextradot', 'rwextraat', 'rwnoat', 'rwplus', 'rwnodot']
+    STEPS = [s_ for s_ in STEPS if prog.resolve(s_, 'qmail-inject.c') is not None]      # a step written out inside rwgeneric() is not an event; the others keep their order
+    if len(STEPS) < 4:
+        raise AnalysisBroken('qmail-inject.c: only the rewriting steps %s exist as functions' % STEPS)
 
     class RG(QHooks):
         """rwgeneric() on an ordinary address (three tokens, none of the early-return shapes): the steps as events, each leaving the address non-empty"""
